@@ -213,6 +213,9 @@ pub struct Gen {
     pub nvals: usize,
     /// staged deployment: steps left inside the window (0 = the hub is wired)
     pub deploy_left: u32,
+    /// release family, now and then: nobody withdraws until this many closed batches wait to be
+    /// released together (more than any page or per-call bound a change might introduce)
+    pub hoard: u32,
 }
 
 fn tx(sender: Id, target: Id, call: Call) -> Op {
@@ -224,11 +227,12 @@ fn txf(sender: Id, target: Id, call: Call, amt: u128) -> Op {
 
 impl Gen {
     pub fn new(seed: u64, family: &str) -> Gen {
-        Gen { rng: Rng::new(seed), p: profile(family), nvals: 3, deploy_left: 0 }
+        Gen { rng: Rng::new(seed), p: profile(family), nvals: 3, deploy_left: 0, hoard: 0 }
     }
 
     pub fn genesis(&mut self) -> Vec<Op> {
         self.deploy_left = if self.p.staged { 5 + self.rng.below(7) as u32 } else { 0 };
+        self.hoard = if self.p.name == "release" && self.rng.chance(1, 5) { 11 + self.rng.below(3) as u32 } else { 0 };
         let r = &mut self.rng;
         let epoch = r.pick(&self.p.epochs);
         let unbonding = r.pick(&self.p.unbondings);
@@ -385,7 +389,13 @@ impl Gen {
             let dc: Option<basset::dispatcher::ConfigResponse> = c.q(DISP, &basset_sei_rewards_dispatcher::msg::QueryMsg::Config {}).ok();
             if let Some(k) = dc {
                 if id_of(&k.hub_contract) != HUB {
-                    return tx(OWNER, DISP, Call::Disp(DispMsg::UConfig(Some(HUB), None, None, None, None, None)));
+                    // now and then the keeper settings travel in the same message
+                    let (ka, kr) = if self.rng.chance(1, 2) {
+                        (Some(id_of(&k.krp_keeper_address)), Some(self.rng.pick(&[k.krp_keeper_rate.atomics().u128(), 10_000_000_000_000_000])))
+                    } else {
+                        (None, None)
+                    };
+                    return tx(OWNER, DISP, Call::Disp(DispMsg::UConfig(Some(HUB), None, None, None, ka, kr)));
                 }
             }
         }
@@ -468,6 +478,34 @@ impl Gen {
         // now and then the owner re-sends a configuration it already has
         if self.rng.chance(1, 50) {
             return self.resend_op(c);
+        }
+        if self.hoard > 0 {
+            let waiting = c.hub_history().iter().filter(|h| !h.released).count() as u32;
+            let p: Option<basset::hub::Parameters> = c.q(HUB, &basset::hub::QueryMsg::Parameters {}).ok();
+            let (e, ub) = p.map(|p| (p.epoch_period, p.unbonding_period)).unwrap_or((30, 100));
+            if waiting >= self.hoard {
+                // enough: let all of them mature; the withdrawals of the normal mix release them together
+                self.hoard = 0;
+                return Op::Env(EnvOp::Advance(ub + 1));
+            }
+            let holders: Vec<(Id, Id)> = [BSEI, STSEI].iter().flat_map(|t| USERS.iter().map(move |u| (*t, *u))).filter(|(t, u)| c.token_balance(*t, *u) > 20).collect();
+            if holders.is_empty() {
+                let u = self.rng.pick(&USERS);
+                let a = (c.bal(u, 0) / 4).max(1);
+                return txf(u, HUB, if self.rng.chance(1, 2) { Call::Hub(HubMsg::Bond) } else { Call::Hub(HubMsg::BondSt) }, a);
+            }
+            return match self.rng.below(10) {
+                0 | 1 | 2 | 3 => Op::Env(EnvOp::Advance(e + 1)),
+                4 if waiting > 0 => {
+                    let (n, d) = self.rng.pick(&[(1u128, 100u128), (1, 10), (1, 3)]);
+                    Op::Env(EnvOp::SlashU(self.rng.pick(&VALS[..self.nvals.min(4)]), n, d))
+                }
+                _ => {
+                    let (tok, h) = self.rng.pick(&holders);
+                    let bal = c.token_balance(tok, h);
+                    tx(h, tok, Call::Tok(TokMsg::Send(HUB, 1 + self.rng.below128(bal / 20), Hook::Unbond)))
+                }
+            };
         }
         // a paged read now and then: from nowhere, from 0, from a stored id, from beyond the end,
         // with the default, a zero, a small, the maximal and an over-the-maximum page size
@@ -803,7 +841,10 @@ impl Gen {
                 let k = self.opt(&[KEEPER, 9]);
                 let bd = self.opt(&[1u8]);
                 let sd = if self.rng.chance(1, 6) { Some(0u8) } else { None };
-                tx(sender, DISP, Call::Disp(DispMsg::UConfig(None, None, sd, bd, k, kr)))
+                // now and then the sibling addresses are named again in the same message
+                let h = if self.rng.chance(1, 4) { Some(HUB) } else { None };
+                let rw = if self.rng.chance(1, 6) { Some(REWARD) } else { None };
+                tx(sender, DISP, Call::Disp(DispMsg::UConfig(h, rw, sd, bd, k, kr)))
             }
             5 => tx(sender, HUB, Call::Hub(HubMsg::SetOwner(self.rng.pick(&[NOMINEE, OWNER])))),
             6 => tx(self.rng.pick(&[NOMINEE, OWNER, 5]), HUB, Call::Hub(HubMsg::Accept)),
